@@ -120,7 +120,10 @@ NATIVE_S = float(os.environ.get('PYVC_NATIVE_S', '300'))
 
 
 def _claimed(prop, oid):
-    return any(fnmatch.fnmatchcase(oid, p) for p in prop.claims)
+    """claim patterns; a pattern starting with '!' excludes (clauses of other properties living in a shared contract)"""
+    if any(fnmatch.fnmatchcase(oid, p[1:]) for p in prop.claims if p.startswith('!')):
+        return False
+    return any(fnmatch.fnmatchcase(oid, p) for p in prop.claims if not p.startswith('!'))
 
 
 def load_known():
